@@ -175,15 +175,20 @@ Fixpoint count (n : node) : Z :=
   | NCap c => sat (2 + count c)
   end.
 
-Fixpoint anchored (n : node) : bool :=
+(* node_is_anchored: the program needs no implicit `.*?` search prefix.  minq = a quantifier counts as anchored only when it
+   cannot repeat zero times (Facts.fact_re_anchor_needs_min, observed by matching `(^a)?b` against `xb`; the code without
+   that test - fixes/safety-regex-anchored-optional.diff - misses matches that start later; a matching-semantics defect,
+   outside C17) *)
+Fixpoint anchored_v (minq : bool) (n : node) : bool :=
   match n with
-  | NCat l _ => anchored l
-  | NAlt l r => anchored l && anchored r
-  | NQuant _ _ _ q => anchored q
+  | NCat l _ => anchored_v minq l
+  | NAlt l r => anchored_v minq l && anchored_v minq r
+  | NQuant mn _ _ q => (if minq then mn >? 0 else true) && anchored_v minq q
   | NBeg => true
-  | NCap c => anchored c
+  | NCap c => anchored_v minq c
   | _ => false
   end.
+Definition anchored (n : node) : bool := anchored_v fact_re_anchor_needs_min n.
 
 (* the loop that expands a range lo-hi of a class:  for ( ; ch <= hi; ++ch) cregex_char_class_add(klass, ch);
    ctr = the type of the counter: `int ch` in the code (no wrap-around below 2^31), an 8 bit counter would be ctr_u8.
@@ -447,3 +452,11 @@ Definition re_groups (pat : list Z) : Z :=
 (* size of the program, for drivers that want to skip huge ones *)
 Definition re_size (pat : list Z) : Z :=
   match re_parse pat with Ok (Some root) => count root | _ => -1 end.
+
+(* iwre_create refuses the pattern because the size estimate exceeds the instruction limit (decided without compiling):
+   lets a driver answer `nocompile` for the huge estimates it would otherwise skip *)
+Definition re_refused (pat : list Z) : bool :=
+  match re_parse pat with
+  | Ok (Some root) => (0 <=? re_max_instructions) && (count root + (if anchored root then 0 else 3) + 2 + 1 >? re_max_instructions)
+  | _ => false
+  end.
